@@ -8,6 +8,7 @@ package expr
 // always gives the same answer"): every range over a map in these functions carries a commutativity
 // obligation (running the body for two distinct keys in either order gives the same result).
 //@ func hashUserType
+//@   params ut ignoreFields ignoreNames ignoreTags seen
 //@   property C13 C09
 //@   opt maprange deterministic
 //@   requires ut != nil
@@ -17,20 +18,25 @@ package expr
 //@   ensures* shape.no.tags: !ignoreFields && ignoreTags ==> result != nil && load(result) == userTypePrefix + ite(!ignoreNames, utNameOf(ut), "") + userTypeHashPrefix + hashSpec(att.Type, ignoreFields, ignoreNames, ignoreTags)
 
 //@ func hashObject
+//@   params o ignoreFields ignoreNames ignoreTags seen
 //@   property C13 C09
 //@   opt maprange deterministic
 
 // Permutation invariance: the comparators handed to sort.Slice must order the slice being sorted
 // (the call-site precondition of sort.Slice, checked on the comparator's real body).
 //@ func hashUnion
+//@   params u ignoreFields ignoreNames ignoreTags seen
 //@   property C13
 
 //@ func sorted
+//@   params o
 //@   property C13
 
 // sortedKeys: a range over the map that only collects the keys, followed by sort.Strings. The order of the
 // result is fixed by the sort (assumed library postcondition), not by the iteration.
 //@ func sortedKeys
+//@   params m
+//@   locals keys
 //@   loop 1 invariant own: fresh(keys)
 //@   modifies nothing
 
@@ -39,6 +45,7 @@ package expr
 // and copying writes nothing that existed before (frame), except the dupper's own memo tables.
 
 //@ func (*ValidationExpr).Dup
+//@   params v
 //@   property C13
 //@   requires v != nil
 //@   ensures* fresh: result != nil && fresh(result) && (len(v.Required) > 0 ==> fresh(result.Required) && len(result.Required) == len(v.Required))
@@ -48,6 +55,8 @@ package expr
 //@   frameprop C13
 
 //@ func MetaExpr.Dup
+//@   params m
+//@   locals d
 //@   property C13
 //@   ensures* fresh: result != nil && fresh(result)
 //@   loop 1 invariant made: d != nil && fresh(d)
@@ -57,13 +66,16 @@ package expr
 // DupType is mutually recursive with DupAttribute (by contract) and dispatches on every kind of type; user
 // types go through the UserType interface (abstract: identifier and attribute as ghost state).
 //@ func (*Object).Set
+//@   params o n att
 //@   trusted
 //@   requires o != nil
 //@   modifies cell(o), elems(load(o)), each(load(o), Attribute)
 //@ func GeneratedResultType
+//@   params id
 //@   modifies nothing
 
 //@ func (*dupper).DupType
+//@   params d t
 //@   trusted
 //@   opt verify callsites
 //@   property C13
@@ -84,6 +96,7 @@ package expr
 //@       modifies utAttr
 
 //@ func (*dupper).DupAttribute
+//@   params d att
 //@   property C13
 //@   requires d != nil && d.uts != nil && d.ats != nil && att != nil
 //@   let isNew = !old(inMap(d.ats, att))
@@ -101,6 +114,8 @@ package expr
 
 // copyReqs: an element-wise copy (same kinds, names and scopes) made of fresh containers.
 //@ func copyReqs
+//@   params reqs
+//@   locals reqs2 req req2 schs
 //@   property C06
 //@   requires forall i int :: 0 <= i && i < len(reqs) ==> reqs[i] != nil && allocated(reqs[i])
 //@   requires forall i int, j int :: 0 <= i && i < len(reqs) && 0 <= j && j < len(reqs[i].Schemes) ==> reqs[i].Schemes[j] != nil && allocated(reqs[i].Schemes[j])
@@ -133,6 +148,7 @@ package expr
 //@ ghost var utAttr (Array Iface Int)
 //@ smt (declare-fun utIDOf (Iface) String)
 //@ func hash
+//@   params dt ignoreFields ignoreNames ignoreTags seen
 //@   trusted
 //@   ensures result != nil && load(result) == hashSpec(dt, ignoreFields, ignoreNames, ignoreTags)
 //@   modifies mapOf(seen)
@@ -160,25 +176,30 @@ package expr
 //@   modifies utAttr
 
 //@ func hashArray
+//@   params a ignoreFields ignoreNames ignoreTags seen
 //@   property C13
 //@   requires a != nil && a.ElemType != nil
 //@   ensures* shape: result != nil && load(result) == arrayPrefix + hashSpec(a.ElemType.Type, ignoreFields, ignoreNames, ignoreTags)
 
 //@ func hashMap
+//@   params m ignoreFields ignoreNames ignoreTags seen
 //@   property C13
 //@   requires m != nil && m.KeyType != nil && m.ElemType != nil
 //@   ensures* shape: result != nil && load(result) == mapPrefix + hashSpec(m.KeyType.Type, ignoreFields, ignoreNames, ignoreTags) + mapElemPrefix + hashSpec(m.ElemType.Type, ignoreFields, ignoreNames, ignoreTags)
 
 // The finalizers called on the payload, result and errors do not touch security data (ASSUMED frames).
 //@ func (*AttributeExpr).Finalize
+//@   params a
 //@   trusted
 //@   modifies all
 //@   preserves MethodExpr.Requirements, MethodExpr.Service, ServiceExpr.Requirements, APIExpr.Requirements, RootExpr.API, global(Root), fieldsOf(SecurityExpr), fieldsOf(SchemeExpr), elems(*SecurityExpr), elems(*SchemeExpr)
 //@ func (*ResultTypeExpr).Finalize
+//@   params rt
 //@   trusted
 //@   modifies all
 //@   preserves MethodExpr.Requirements, MethodExpr.Service, ServiceExpr.Requirements, APIExpr.Requirements, RootExpr.API, global(Root), fieldsOf(SecurityExpr), fieldsOf(SchemeExpr), elems(*SecurityExpr), elems(*SchemeExpr)
 //@ func (*ErrorExpr).Finalize
+//@   params e
 //@   trusted
 //@   modifies all
 //@   preserves MethodExpr.Requirements, MethodExpr.Service, ServiceExpr.Requirements, APIExpr.Requirements, RootExpr.API, global(Root), fieldsOf(SecurityExpr), fieldsOf(SchemeExpr), elems(*SecurityExpr), elems(*SchemeExpr)
@@ -187,6 +208,7 @@ package expr
 // service's, otherwise the API's requirements are copied.
 //@ macro reqsWF(rs) = (forall i int :: 0 <= i && i < len(rs) ==> rs[i] != nil && allocated(rs[i])) && (forall i int, j int :: 0 <= i && i < len(rs) && 0 <= j && j < len(rs[i].Schemes) ==> rs[i].Schemes[j] != nil && allocated(rs[i].Schemes[j]))
 //@ func (*MethodExpr).Finalize
+//@   params m
 //@   property C06
 //@   requires m != nil && m.Service != nil && Root != nil && Root.API != nil
 //@   requires reqsWF(m.Requirements) && reqsWF(m.Service.Requirements) && reqsWF(Root.API.Requirements)
@@ -204,6 +226,8 @@ package expr
 //@   loop 5 invariant scan.schemes: !noreq && 0 <= rangeindex#4 && rangeindex#4 < len(own) && r == own[rangeindex#4] && (forall j int :: 0 <= j && j <= rangeindex#5 ==> r.Schemes[j].Kind != NoKind) && (forall i int, j int :: 0 <= i && i < rangeindex#4 && 0 <= j && j < len(own[i].Schemes) ==> own[i].Schemes[j].Kind != NoKind)
 
 //@ func (*Object).Attribute
+//@   params o name
 //@   modifies nothing
 //@ func (*AttributeExpr).Find
+//@   params a name
 //@   modifies nothing
